@@ -152,6 +152,8 @@ def validate_standard(histories, scratch: Path, tag="std"):
     stats = {"states": states, "transitions": trans, "events": sum(len(p) for p in packed),
              "iterations": sum(1 for p in packed for e in p if e["ev"] == "iter"),
              "populations": sum(1 for p in packed for e in p if e["ev"] == "populate"),
+             "population_batches_hooked": sum(1 for p in packed for e in p if e["ev"] == "pbatch"),
+             "pools_hooked": sum(1 for p in packed for e in p if e["ev"] == "ppool"),
              "checkpoints": sum(1 for p in packed for e in p if e["ev"] == "ckpt"),
              "resumes": sum(1 for p in packed for e in p if e["ev"] == "resume"),
              "tie_iterations": sum(1 for p in packed for e in p if e["ev"] == "iter"
